@@ -21,17 +21,28 @@ THEOREMS = [
     ('EAO.Properties.C03', 'EAO.C03.infeasible_of_negative_bound_bool', 'hence no feasible point with the boolean flags either'),
     ('EAO.Properties.C18', 'EAO.C18.lagrangian_bound', 'certificate theorem: any sign-correct multiplier vector gives an upper bound on every feasible value (used to certify optimality of what the solver returned)'),
 ]
-COMPONENTS = ['translate vs the cvxpy.Problem actually constructed by OptimProblem.optimize (recorded in the harness process)',
-              'exact Lagrangian certificate (driver op lagrangian) of every LP answer']
-RULE = ('random LP and MIP portfolios plus hand-made problems with boolean variables with non-0/1 bounds and duplicated mapping rows; solvers: default, SCIPY (HiGHS), CLARABEL for LP, SCIP for MIP, and in 30 % of the CLARABEL cases the LP-only solver is kept for a MIP (an exception is no report; a reported failure must mean infeasible); infeasible stream; '
-        'make_soft_problem followed by a plain optimise on the same object; non-trivial = solved problem with >= 1 restriction row binding or boolean variable; distinct by scenario hash')
+COMPONENTS = ['translate vs the cvxpy.Problem actually constructed by OptimProblem.optimize (recorded in the harness process): bounds, blocks, boolean index set and the objective vector',
+              'exact Lagrangian certificate (driver op lagrangian) of every LP answer',
+              'robust target: objective (the epigraph variable alone) and epigraph rows (one per cost sample, t <= -c_s.x) of the recorded cvxpy.Problem vs the samples fed; '
+              'robustObjective of the model (driver op robust_value, exact) at the returned vector vs the objective value the solver reports']
+RULE = ('random LP and MIP portfolios plus hand-made problems with boolean variables with non-0/1 bounds and duplicated mapping rows; solvers: default, SCIPY (HiGHS), CLARABEL for LP, SCIP for MIP, and in 30 % of the CLARABEL cases the LP-only solver is kept for a MIP (an exception is no report; a reported failure must mean infeasible); infeasible stream; portfolios in which every variable is pinned by its bounds, balanced or not (comp/fixedpf); '
+        'make_soft_problem followed by a plain optimise on the same object; '
+        'stream rob: generated portfolio problems and raw problems (LP and MIP, all solvers above) optimised with target=\'robust\' and 1-4 cost samples drawn from the seed as perturbations of the problem\'s own cost vector '
+        '(coordinate-wise positive factors, dyadic shifts, sign flips, a mix of these, the own vector among them or not, and the control samples = [c, c]), every oracle applied with "better value" read as '
+        '"better worst case over the samples" (reference: independent epigraph LP/MILP with HiGHS on the same arrays) and the reported value held against -c.x with the problem\'s OWN c; non-trivial = solved problem with >= 1 restriction row binding or boolean variable; distinct by scenario hash')
 ASSUMPTIONS = ['optimality of MIP answers is cross-checked against an independent HiGHS MILP run on the same arrays (validation, not certificate)',
                'infeasibility claims: certified exactly (Farkas multipliers found numerically, bound evaluated over the rationals, theorem infeasible_of_negative_bound) when the LP relaxation is infeasible; otherwise (infeasible only through integrality) cross-checked with HiGHS on the same arrays',
                'feasibility tolerance 1e-6 (scaled), value tolerance 2e-6 relative']
+PARTIAL = ['robust target: that the epigraph optimum is the minimum over the samples of -c_s.x is theorem robust_epigraph about the model\'s robustObjective, which the driver evaluates exactly at every returned vector; '
+           'the epigraph rows and the objective actually handed to cvxpy are compared with the samples fed inside the harness (read back from the recorded cvxpy.Problem, exact), not through a model of the hand-off of its own - '
+           'translate models the constraint set and the plain objective only; that Results.value of the robust target is -c.x with the problem\'s own c (not the optimised worst case) is the property\'s value clause, checked by the oracle value_identity',
+           'the reference optimum of MIP answers (plain and robust target) is a second solver run, not a certificate; for LP answers of the robust target the exact Lagrangian bound is evaluated for the mixture of the samples '
+           'given by the solver\'s multipliers of the epigraph rows (worst case(z) <= -(sum lam_s c_s).z <= bound for every feasible z); as for the plain target a bound that does not close is recorded (weak-certificate) and decided by the reference run']
 MODELLED = ['infinite bounds (the model\'s bounds are rationals): problems with infinite bounds are decided by the oracles on the real code only (feasibility, value identity, reference optimum)',
             'the numerical solvers (cvxpy back ends): not verified; every answer is checked for feasibility, value identity and by an exact Lagrangian certificate (LP)',
             'the ortools interface is not installed in this sandbox and not exercised']
-EXPLANATION = 'theorems: the hand-off means exactly Feasible/value; per-instance certificate for what the solver returns'
+EXPLANATION = ('theorems: the hand-off means exactly Feasible/value; per-instance certificate for what the solver returns; robust target: same constraint set, epigraph rows read back '
+               'against the samples, worst case of the returned vector against an independent epigraph LP/MILP, reported value against -c.x of the problem\'s own cost vector')
 
 
 def scenarios(seed, tier):
@@ -49,6 +60,60 @@ def scenarios(seed, tier):
         s['keep_unfit_solver'] = r2.random() < 0.3
         s['soft_first'] = (i % 3 == 0)
         yield 'gen%d' % i, s
+    # problems in which every variable is pinned by its bounds, the pinned values balancing or not: a reported success must still
+    # satisfy every row (own random stream: the cases above stay what they were)
+    from ..comp import fixedpf as F
+    rnd2 = random.Random(seed * 7919 + 3 + 500009)
+    for i in range(n // 8):
+        s = F.gen_case(random.Random(rnd2.getrandbits(48)), tmax=8 if tier == 'quick' else 12)
+        s['solver'] = rnd2.choice([None, 'SCIPY', 'CLARABEL'])
+        yield 'fixed%d' % i, s
+    # robust target (maximise the minimum over cost samples): generated portfolio problems and raw problems, LP and MIP, the samples
+    # drawn in run_case from the scenario's own seed as perturbations of the cost vector of the assembled problem (own random
+    # stream again)
+    rnd3 = random.Random(seed * 7919 + 3 + 700027)
+    for i in range(n // 4):
+        r3 = random.Random(rnd3.getrandbits(48))
+        if i % 3 == 2:
+            s = {'raw': gen_raw(r3)}
+        else:
+            s = gen.gen_portfolio(r3, tmax=8 if tier == 'quick' else 12, tz_prob=0.05, market_prob=0.95 if i % 5 else 0.3)
+            s['keep_unfit_solver'] = r3.random() < 0.15
+            s['soft_first'] = (i % 4 == 0)
+        s['solver'] = r3.choice([None, None, 'SCIPY', 'CLARABEL', 'SCIP'])
+        mode = r3.choice(['same', 'scale', 'shift', 'flip', 'mixed', 'mixed'])
+        s['robust'] = {'mode': mode, 'k': r3.randint(2 if mode == 'same' else 1, 4), 'own': r3.random() < 0.35, 'seed': r3.getrandbits(32)}
+        yield 'rob%d' % i, s
+
+
+def robust_samples(c, rb, frozen):
+    """the cost samples of a robust case: perturbations of the problem's own cost vector c, drawn from the seed of the scenario
+    record `rb` (dyadic factors and shifts, so that the model evaluates them exactly).  mode same: k copies of c (control: minimum
+    over the samples = -c.x); scale: coordinate-wise positive factors; shift: dyadic shifts of some coordinates (also of cost-free
+    ones); flip: sign flips of some coordinates; mixed: one of these per sample; own: c itself is one of the samples.
+    `frozen` (variables with an infinite bound) only get positive factors, so that what is bounded under c stays bounded."""
+    rnd = random.Random(rb['seed'])
+    c = np.asarray(c, dtype=float)
+    n = len(c)
+    nz = np.abs(c[c != 0])
+    step = 2.0 ** round(float(np.log2(nz.mean()))) if len(nz) else 1.0
+    out = []
+    for i in range(rb['k']):
+        kind = rb['mode'] if rb['mode'] != 'mixed' else rnd.choice(['scale', 'shift', 'flip', 'same'])
+        fac = np.array([rnd.choice([0.25, 0.5, 0.75, 1.0, 1.0, 1.5, 2.0, 3.0]) for _ in range(n)])
+        if kind == 'same' or (rb.get('own') and i == 0):
+            s = c.copy()
+        elif kind == 'scale':
+            s = c * fac
+        elif kind == 'shift':
+            p = rnd.choice([0.2, 0.5, 1.0])
+            s = c + np.array([rnd.randint(-8, 8) / 4.0 * step if rnd.random() < p else 0.0 for _ in range(n)])
+        else:
+            p = rnd.choice([0.2, 0.5])
+            s = c * np.array([-1.0 if rnd.random() < p else 1.0 for _ in range(n)])
+        s = np.where(frozen, c * fac, s) if kind != 'same' and not (rb.get('own') and i == 0) else s
+        out.append(np.asarray(s, dtype=float))
+    return out
 
 
 def gen_raw(rnd):
@@ -131,6 +196,7 @@ class Recorder:
             def __init__(s, objective, constraints=None):
                 rec.objective = objective
                 rec.constraints = list(constraints or [])
+                rec.problem = s
                 super().__init__(objective, constraints)
         cvxpy.Problem = P
         return self
@@ -140,18 +206,55 @@ class Recorder:
         return False
 
 
-def extract_handoff(recd, n):
-    """canonical form of what was handed over: bounds, blocks [(relation, rows)], booleans, objective"""
+def lin_coef(expr, x, n):
+    """(coefficient vector, constant) of a scalar cvxpy expression that is affine in the variable x alone; None otherwise"""
+    if any(v.id != x.id for v in expr.variables()) or not expr.is_affine() or int(np.prod(expr.shape or (1,))) != 1:
+        return None
+    a = getattr(expr, 'args', [])
+    if type(expr).__name__ == 'MulExpression' and len(a) == 2 and a[0].is_constant() and a[1] is x:
+        return np.asarray(a[0].value, dtype=float).ravel(), 0.0          # constant vector @ x, as the code writes it
+    keep = x.value                                                        # anything else: evaluate on 0 and the unit vectors
+    try:
+        x.save_value(np.zeros(n))
+        c0 = float(np.ravel(expr.value)[0])
+        coef = np.zeros(n)
+        for j in range(n):
+            e = np.zeros(n)
+            e[j] = 1.0
+            x.save_value(e)
+            coef[j] = float(np.ravel(expr.value)[0]) - c0
+    finally:
+        x.save_value(keep)
+    return coef, c0
+
+
+def extract_handoff(recd, n, n_samples=0):
+    """canonical form of what was handed over: bounds, blocks [(relation, rows)], booleans, objective; with n_samples > 0 (robust
+    target) the last n_samples constraints are read as epigraph rows `t <= linear(x)`"""
     import cvxpy as cp
     out = {'blocks': []}
     x = None
-    for v in recd.objective.variables():
-        if v.shape == (n,):
-            x = v
     cons = recd.constraints
+    for v in list(cons[0].variables()) + list(recd.objective.variables()):     # the first constraint is x <= u
+        if v.shape == (n,) and x is None:
+            x = v
+    epi = []
+    if n_samples:
+        cons, epi = cons[:-n_samples], cons[-n_samples:]
 
     def const_of(e):
         return np.asarray(e.value, dtype=float).ravel()
+    # objective: maximise (linear in x) or maximise (a variable of its own)
+    oe = recd.objective.args[0]
+    out['maximize'] = isinstance(recd.objective, cp.Maximize)
+    out['obj_var'] = oe if isinstance(oe, cp.Variable) and (x is None or oe.id != x.id) else None
+    out['obj'] = lin_coef(oe, x, n) if x is not None and out['obj_var'] is None else None
+    out['epi'] = []
+    for c in epi:
+        ok = isinstance(c, cp.constraints.Inequality) and out['obj_var'] is not None and x is not None
+        lhs, rhs = c.args if ok else (None, None)          # lhs <= rhs
+        ok = ok and isinstance(lhs, cp.Variable) and lhs.id == out['obj_var'].id and int(np.prod(lhs.shape or (1,))) == 1
+        out['epi'].append(lin_coef(rhs, x, n) if ok else None)
     # bounds: x <= u ; x >= l
     c0, c1 = cons[0], cons[1]
     out['u'] = const_of(c0.args[1]) if isinstance(c0, cp.constraints.Inequality) else None
@@ -195,9 +298,11 @@ def run_case(scn, drv):
     def viol(orc, msg, **facts):
         r['violations'].append({'oracle': orc, 'detail': msg, 'facts': dict(facts, **ctx)})
     solver = None
+    rb = scn.get('robust')
     if 'raw' in scn:
         op = build_raw(scn['raw'])
         feats.append('raw-problem')
+        solver = scn.get('solver')
     else:
         for a in scn['assets']:
             feats.append('asset:' + a['type'])
@@ -220,20 +325,32 @@ def run_case(scn, drv):
     feats.append('solver:%s' % solver)
     ctx.update(solver=str(solver), mip=bool(mip))
     op_snapshot = copy.deepcopy(op)
-    if scn.get('soft_first') and mip:
-        feats.append('soft-then-hard')
-        try:
-            impl.solve(op, solver=solver, make_soft_problem=True)
-        except Exception as e:
-            feats.append('soft-solver-exception:' + type(e).__name__)
     n = len(op.c)
     has_inf = not (np.all(np.isfinite(op.l)) and np.all(np.isfinite(op.u)))
     if has_inf:
         feats.append('infinite-bounds:' + str(scn.get('raw', {}).get('inf')))
         ctx.update(infinite_bounds=True)
+    # target: plain value, or (stream rob) the minimum over cost samples drawn as perturbations of the problem's own cost vector
+    kw, cs = {}, None
+    if rb:
+        cs = robust_samples(op_snapshot.c, rb, ~(np.isfinite(op_snapshot.l) & np.isfinite(op_snapshot.u)))
+        differ = any(not np.array_equal(c_, op_snapshot.c) for c_ in cs)
+        feats += ['target:robust', 'robust-samples:' + rb['mode'], 'robust-samples-%s-own-cost' % ('differ-from' if differ else 'equal')]
+        ctx.update(target='robust', n_samples=len(cs), samples=[[float(v) for v in c_] for c_ in cs] if n <= 12 else 'see robust_samples')
+        kw = {'target': 'robust', 'samples': [c_.copy() for c_ in cs]}
+
+    def score(z):
+        """what the chosen target maximises: -c.z, or the worst case of -c_s.z over the samples"""
+        return -float(np.dot(op_snapshot.c, z)) if cs is None else min(-float(np.dot(c_, z)) for c_ in cs)
+    if scn.get('soft_first') and mip:
+        feats.append('soft-then-hard')
+        try:
+            impl.solve(op, solver=solver, make_soft_problem=True, **kw)
+        except Exception as e:
+            feats.append('soft-solver-exception:' + type(e).__name__)
     with Recorder() as recd:
         try:
-            res = impl.solve(op, solver=solver)
+            res = impl.solve(op, solver=solver, **kw)
         except Exception as e:
             feats.append('solver-exception:' + type(e).__name__)
             return r
@@ -241,11 +358,36 @@ def run_case(scn, drv):
     opj = impl.problem_json(op_snapshot) if not has_inf else None
     # ---- correspondence: translate vs the recorded hand-off
     try:
+        ho = extract_handoff(recd, n, len(cs) if cs is not None else 0)
+        dis = []
+        if not ho['maximize']:
+            dis.append('the objective handed over is not maximised')
+        if cs is not None:
+            # robust target: maximise a variable t of its own under one row t <= -c_s.x per sample (any order); that the optimum
+            # of this form is the minimum over the samples is theorem robust_epigraph
+            if ho['obj_var'] is None:
+                dis.append('robust target: the objective handed over is not the epigraph variable alone')
+            elif any(e is None for e in ho['epi']):
+                dis.append('robust target: an epigraph row could not be read back as t <= linear(x)')
+            else:
+                got = sorted((tuple(float(v) for v in co), float(k0)) for co, k0 in ho['epi'])
+                want = sorted((tuple(float(-v) for v in c_), 0.0) for c_ in cs)
+                if got != want:
+                    i_ = next((i for i, (g, w) in enumerate(zip(got, want)) if g != w), 0)
+                    dis.append('robust target: epigraph rows handed over differ from t <= -c_s.x of the samples fed, e.g. %s vs %s' % (str(got[i_])[:150], str(want[i_])[:150]))
+        for d in dis:
+            r['disagreements'].append({'component': 'translate', 'detail': d})
         if has_inf:
             raise StopIteration
-        ho = extract_handoff(recd, n)
         mod = drv.ok({'op': 'translate', 'problem': opj})
         dis = []
+        if cs is None:
+            if ho['obj'] is None:
+                dis.append('the objective handed over could not be read back as linear in x')
+            else:
+                d = pf.cmp_vec('handoff.objective', [fs(-Fraction(v)) for v in mod['obj']], [fs(v) for v in ho['obj'][0]], 0)
+                if d or ho['obj'][1] != 0:
+                    dis.append(d or 'objective with a constant term %g' % ho['obj'][1])
         d = pf.cmp_vec('handoff.u', mod['u'], [fs(v) for v in ho['u']], 0) or pf.cmp_vec('handoff.l', mod['l'], [fs(v) for v in ho['l']], 0)
         if d:
             dis.append(d)
@@ -277,7 +419,7 @@ def run_case(scn, drv):
     except Exception as e:
         r['disagreements'].append({'component': 'translate', 'detail': 'hand-off could not be read back: %s: %s' % (type(e).__name__, e)})
     # ---- independent reference (HiGHS on the same arrays)
-    ref = reference(op_snapshot)
+    ref = reference(op_snapshot) if cs is None else robust_reference(op_snapshot, cs)
     if ref['status'] == 'optimal':
         # trust the reference only as far as its point can be verified: feasible for the problem and integral on the flags
         w_, _ = pf.feasibility_violation(op_snapshot, ref['x'])
@@ -288,13 +430,16 @@ def run_case(scn, drv):
             okint = (not bl_) or float(np.abs(ref['x'][bl_] - np.round(ref['x'][bl_])).max()) <= 1e-6
         if w_ > 1e-6 or not okint:
             ref = {'status': 'unverified'}
+        elif cs is not None:
+            ref['value'] = score(ref['x'])      # the worst case of the verified point itself, not the solver's epigraph variable
+    tgt = 'value' if cs is None else 'worst case over the samples'
     if isinstance(res, str):
         feats.append('reported:' + res)
         if res == 'not successful' and ref['status'] == 'unbounded':
             viol('failure_means_infeasible', 'optimisation reported "not successful" but the problem is feasible and unbounded (HiGHS): e.g. %s is a feasible point' % (
                 np.round(ref['x'], 6).tolist() if ref.get('x') is not None else '?'), what='unbounded_reported_as_failure')
         elif res == 'not successful' and ref['status'] == 'optimal':
-            viol('failure_means_infeasible', 'optimisation reported "not successful" but the problem has a feasible point with value %.8g (HiGHS)' % ref['value'], what='false_failure')
+            viol('failure_means_infeasible', 'optimisation reported "not successful" but the problem has a feasible point with %s %.8g (HiGHS)' % (tgt, ref['value']), what='false_failure')
         elif res == 'not successful' and not has_inf:
             # exact infeasibility certificate: multipliers found numerically, bound evaluated over the rationals by the model
             y = farkas_multipliers(op_snapshot)
@@ -329,19 +474,44 @@ def run_case(scn, drv):
                 viol('boolean_flags', 'a variable flagged boolean takes value %.6g' % x[bl][int(np.argmax(np.abs(x[bl] - np.clip(np.round(x[bl]), 0, 1))))], what='non_boolean')
     # (3) value identity
     own = -float(np.dot(op_snapshot.c, x))
-    tolv = 2e-6 * max(1.0, abs(V), float(np.abs(op_snapshot.c).max() * max(1.0, np.abs(x).max())))
+    cmax = float(max(np.abs(c_).max() for c_ in [op_snapshot.c] + (cs or [])))
+    tolv = 2e-6 * max(1.0, abs(V), cmax * max(1.0, float(np.abs(x).max())))
     if abs(own - V) > tolv:
-        viol('value_identity', 'reported value %.8g but minus cost times the returned vector is %.8g' % (V, own), what='value')
-    # (4) optimality
-    if ref['status'] == 'optimal' and ref['value'] > V + 10 * tolv:
-        viol('optimality', 'a feasible point with value %.8g exists (HiGHS) but %.8g was reported as optimum' % (ref['value'], V), what='suboptimal')
-    if ref['status'] == 'optimal' and V > ref['value'] + 10 * tolv and worst <= 1e-5:
+        viol('value_identity', 'reported value %.8g but minus cost times the returned vector is %.8g%s' % (
+            V, own, '' if cs is None else ' (robust target; the worst case of the vector over the %d samples is %.8g)' % (len(cs), score(x))), what='value')
+    # (4) optimality for the chosen target: S = what the returned vector achieves (plain target: the reported value)
+    S = V if cs is None else score(x)
+    if ref['status'] == 'optimal' and ref['value'] > S + 10 * tolv:
+        if cs is None:
+            viol('optimality', 'a feasible point with value %.8g exists (HiGHS) but %.8g was reported as optimum' % (ref['value'], V), what='suboptimal')
+        else:
+            viol('optimality', 'robust target: a feasible point whose worst case over the samples is %.8g exists (HiGHS, epigraph form) but the returned vector only reaches %.8g' % (ref['value'], S), what='suboptimal')
+    if cs is not None:
+        # the model's robust objective at the returned vector (exact) against the objective value the solver reported for the
+        # epigraph problem (theorem robust_epigraph: the epigraph optimum at x is the minimum over the samples)
+        mr = drv.ok({'op': 'robust_value', 'samples': [[fs(v) for v in c_] for c_ in cs], 'x': [fs(v) for v in x], 'c': [fs(v) for v in op_snapshot.c]})
+        pv = getattr(getattr(recd, 'problem', None), 'value', None)
+        r['observed'] = {'value': V, 'worst_case': S, 'solver_objective': None if pv is None else float(pv)}
+        if mr['min'] is None or abs(float(Fraction(mr['min'])) - S) > tolv or abs(float(Fraction(mr['reported'])) - own) > tolv:
+            r['disagreements'].append({'component': 'robust objective', 'detail': 'model: minimum over the samples %s, -c.x %s; harness: %.10g, %.10g' % (mr['min'], mr['reported'], S, own)})
+        elif pv is not None and abs(float(Fraction(mr['min'])) - float(pv)) > 10 * tolv and worst <= 1e-5:
+            r['disagreements'].append({'component': 'robust objective', 'detail': 'the solver reports %.10g as optimum of the epigraph problem, but the minimum over the samples of -c_s.x at the returned vector is %.10g' % (float(pv), float(Fraction(mr['min'])))})
+        if abs(S - own) > 10 * tolv:
+            feats.append('robust-worst-case-differs-from-value')
+    if ref['status'] == 'optimal' and S > ref['value'] + 10 * tolv and worst <= 1e-5:
         # the returned point is feasible, respects the flags and is BETTER than what the reference solver found: no claim
         # of the property is refuted (the reference run was suboptimal; observed with HiGHS on MIPs) - recorded only
         feats.append('reference-solver-suboptimal')
-    if not mip and res.duals is not None and not has_inf:
-        prices_by_pair = {}
-        dn = res.duals.get('N')
+    opj_c = opj
+    if cs is not None and not mip and res.duals is not None and not has_inf:
+        # robust LP: with the multipliers lam of the epigraph rows (lam >= 0, sum 1) every feasible z has
+        # worst case(z) <= -(sum lam_s c_s).z, which the Lagrangian bound of the problem with the mixed cost vector bounds
+        lam = np.array([abs(float(np.ravel(c_.dual_value)[0])) if c_.dual_value is not None else 0.0 for c_ in recd.constraints[-len(cs):]])
+        opj_c = None
+        if lam.sum() > 0:
+            lam = lam / lam.sum()
+            opj_c = dict(opj, c=[fs(sum(Fraction(float(w_)) * Fraction(float(c_[j])) for w_, c_ in zip(lam, cs))) for j in range(n)])
+    if not mip and res.duals is not None and not has_inf and opj_c is not None:
         y = []
         cnt = {'U': 0, 'L': 0, 'S': 0, 'N': 0}
         for k in op_snapshot.cType:
@@ -350,12 +520,14 @@ def run_case(scn, drv):
             d = res.duals.get(k)
             v = float(np.atleast_1d(d)[i]) if d is not None else 0.0
             y.append(max(0.0, v) if k == 'U' else (min(0.0, -v) if k == 'L' else v))
-        mm_ = drv.ok({'op': 'lagrangian', 'problem': opj, 'y': [fs(v) for v in y]})
-        gap = float(Fraction(mm_['ub']) - Fraction(V))
-        r['observed'] = {'value': V, 'exact_lagrangian_gap': gap}
+        mm_ = drv.ok({'op': 'lagrangian', 'problem': opj_c, 'y': [fs(v) for v in y]})
+        gap = float(Fraction(mm_['ub']) - Fraction(S))
+        r['observed'] = dict(r.get('observed') or {}, value=V, exact_lagrangian_gap=gap)
+        if gap <= 10 * tolv and mm_['signok']:
+            feats.append('optimum-certified-exactly')
         if gap > 10 * tolv and worst <= 1e-5:
             # the solver's own duals do not certify its answer: check against the reference before alarming
-            if ref['status'] == 'optimal' and ref['value'] > V + 10 * tolv:
+            if ref['status'] == 'optimal' and ref['value'] > S + 10 * tolv:
                 pass  # already reported above
             else:
                 feats.append('weak-certificate')
@@ -394,6 +566,26 @@ def farkas_multipliers(op):
     y = np.where(np.array([k == 'U' for k in op.cType]), np.maximum(y, 0), y)
     y = np.where(np.array([k == 'L' for k in op.cType]), np.minimum(y, 0), y)
     return y
+
+
+def robust_reference(op, samples):
+    """independent epigraph form of the robust target on the arrays of the problem (HiGHS, LP or MILP): maximise z subject to
+    c_s.x + z <= 0 for every sample and x feasible; the answer's x is the first n coordinates"""
+    import types
+    n, k = len(op.c), len(samples)
+    E = sp.hstack([sp.csr_matrix(np.vstack(samples)), sp.csr_matrix(np.ones((k, 1)))])
+    if op.A is not None and op.A.shape[0] > 0:
+        A = sp.vstack([sp.hstack([sp.csr_matrix(op.A), sp.csr_matrix((op.A.shape[0], 1))]), E])
+        b = np.concatenate([np.asarray(op.b, dtype=float), np.zeros(k)])
+        ct = list(op.cType) + ['U'] * k
+    else:
+        A, b, ct = E, np.zeros(k), ['U'] * k
+    ext = types.SimpleNamespace(c=np.concatenate([np.zeros(n), [-1.0]]), l=np.concatenate([op.l, [-np.inf]]), u=np.concatenate([op.u, [np.inf]]),
+                                A=A.tocsr(), b=b, cType=ct, mapping=op.mapping)
+    ref = reference(ext)
+    if ref.get('x') is not None:
+        ref['x'] = np.asarray(ref['x'], dtype=float)[:n]
+    return ref
 
 
 def reference(op):
